@@ -97,7 +97,8 @@ P = {
     "C17": _p("static: path summaries of new/copy (existence test before every file-creating call on the same path value, no destructive call); header layout conformance; signature-before-decode ordering with a whole-value comparison; no shared class-level state in Tdf/TdfEntry; no construct on the open path that discards an exception", "3/C17",
               "Decides that every file-creating call in new/copy is dominated by `if p.exists(): raise FileExistsError` on the path built from the argument, "
               "that the empty container has the reference layout (version 1, 14 zero-size slots at 4096, nothing after), that __init__ refuses missing paths "
-              "and __enter__ compares the signature before decoding any field, and the copy direction. Races with other processes are not decided."),
+              "and __enter__ compares the signature before decoding any field, that the open path itself creates / deletes nothing, and the copy direction - "
+              "also for a copy written by hand (copyfileobj, one whole or size-bounded read, a chunk loop whose exits are decided). Races with other processes are not decided."),
     "C18": _p("static: sibling cross-check of the four accessors of four classes (same container, three-way dispatch, literal label predicate, purity incl. the item class's __eq__)", "3/C18",
               "Decides the coherence relations structurally for every content (duplicates, empty labels, case variants - the predicate is a literal ==): all "
               "four accessors read one container, int -> list position, str -> first match else KeyError, other -> TypeError, membership uses the same "
@@ -110,7 +111,8 @@ P = {
     "C20": _p("static: escape analysis of mutable defaults (def-use + isinstance path conditions), class-level / module-level mutable state rules, decoder freshness", "3/C20",
               "Decides the absence of the sharing channels between separately created blocks: no mutable default escapes into instance state, no class-level "
               "or module-level container is mutated through instances/functions, container attributes are fresh per instance or the caller's own argument, "
-              "decoders return instances constructed in that call. Sharing the caller creates on purpose is outside the property."),
+              "decoders return instances constructed in that call; a mutable default is not mutated in place either, a class-level data descriptor keeps nothing "
+              "on itself, and a method that inserts an item never writes into it. Sharing the caller creates on purpose is outside the property."),
 }
 
 NOT_YET = "check not built yet in this revision (work in progress; see DESIGN.md section 3 for the planned static rule)"
